@@ -647,6 +647,8 @@ fn generate_moves_for_piece(
                     Black => Point(mov.0 - 1, mov.1),
                 };
 
+                // unset any existing pawn double move first so its file leaves the key
+                new_board.unset_pawn_double_move(zobrist_hasher);
                 new_board.pawn_double_move = Some(en_passant_square);
                 new_board.zobrist_key ^= zobrist_hasher.get_val_for_en_passant(en_passant_square.1);
             } else {
